@@ -231,7 +231,77 @@ def search(ctx):
                 # which circuits into_bench accepts (e.g. constants need an input to hang on) is C14's clause
                 ctx.count('into_bench_raised:' + type(e).__name__)
     edited_objects(ctx)
+    deep_chains(ctx)
     cnf_template_oracle(ctx)
+
+
+def deep_chains(ctx):
+    """dependency chains of 1100..6000 gates (beyond any recursion depth CPython allows), stored sink first or shuffled:
+    every entry point must still return the denotation — the reference is evaluate_full_circuit certified by the Lean
+    checker, plus the harness's own fold along the chain"""
+    rng = ctx.rng('deep')
+    for depth in ctx.scale([1100, 3000], [1100, 1500, 3000, 6000]):
+        types = ['AND', 'OR', 'XOR', 'NAND', 'NOR', 'NXOR', 'GT', 'LT', 'GEQ', 'LEQ', 'NOT', 'IFF']
+        gates = [['a', 'INPUT', []], ['b', 'INPUT', []], ['g0', 'XOR', ['a', 'b']]]
+        for i in range(1, depth):
+            ty = rng.choice(types)
+            prev = 'g%d' % (i - 1)
+            if ty in ('NOT', 'IFF'):
+                ops = [prev]
+            else:
+                other = rng.choice(['a', 'b', 'g%d' % rng.randrange(max(0, i - 3), i)])
+                ops = [prev, other] if rng.random() < 0.5 else [other, prev]
+            gates.append(['g%d' % i, ty, ops])
+        order = rng.choice(['sink_first', 'shuffled', 'source_first'])
+        body = gates[2:]
+        if order == 'sink_first':
+            body = body[::-1]
+        elif order == 'shuffled':
+            rng.shuffle(body)
+        outs = ['g%d' % (depth - 1), 'g%d' % (depth // 2)]
+        j = realize({'gates': gates[:2] + body, 'inputs': ['a', 'b'], 'outputs': outs, 'blocks': []})
+        ctx.count('deep_chain:%d:%s' % (depth, order))
+        creq, fulls = [], []
+        for bits in itertools.product('FT', repeat=2):
+            asg = [['a', bits[0]], ['b', bits[1]]]
+            ctx.case(json.dumps(['deep', depth, order, bits, hash(json.dumps(gates))]), True)
+            r = py_exec({'op': 'eval_full', 'c': j, 'asg': asg})
+            if 'err' in r:
+                ctx.violation('eval_full.raises', f'evaluate_full_circuit raised {r["err"]} on a chain of {depth} gates',
+                              input={'deep_chain': {'depth': depth, 'order': order}, 'c': j, 'asg': asg})
+                return
+            fulls.append((bits, asg, dict(map(tuple, r['ok']))))
+            creq.append({'op': 'check_valb', 'c': j, 'asg': asg, 'v': r['ok']})
+        for (bits, asg, _), ans in zip(fulls, ctx.driver.ask_many(creq)):
+            if ans.get('ok') is not True:
+                ctx.violation('eval_full.wrong', f'evaluate_full_circuit is not the denotation on a chain of {depth} gates',
+                              input={'c': j, 'asg': asg})
+                return
+        tt = py_exec({'op': 'truth_table', 'c': j})
+        for idx, (bits, asg, den) in enumerate(fulls):
+            exp_out = [den[o] for o in outs]
+            inp = {'deep_chain': {'depth': depth, 'order': order}, 'c': j, 'asg': asg}
+            for name, req, want in (
+                    ('evaluate', {'op': 'evaluate', 'c': j, 'vals': list(bits)}, {'ok': exp_out}),
+                    ('evaluate_at', {'op': 'evaluate_at', 'c': j, 'vals': list(bits), 'idx': 0}, {'ok': exp_out[0]})):
+                r = py_exec(req)
+                if r != want:
+                    ctx.violation(name + '.wrong', f'{name} on a chain of {depth} gates returned {str(r)[:80]}, expected {want}', input=inp)
+            r = py_exec({'op': 'eval_lazy', 'c': j, 'asg': asg})
+            if 'err' in r:
+                ctx.violation('eval_lazy.raises', f'evaluate_circuit raised {r["err"]} on a chain of {depth} gates', input=inp)
+            elif any(dict(map(tuple, r['ok'])).get(o) != den[o] for o in outs):
+                ctx.violation('eval_lazy.wrong', f'evaluate_circuit on a chain of {depth} gates: outputs differ from the denotation', input=inp)
+            r = py_exec({'op': 'eval_outputs', 'c': j, 'asg': asg})
+            if r.get('ok') is None or dict(map(tuple, r['ok'])) != {o: den[o] for o in outs}:
+                ctx.violation('eval_outputs.wrong', f'evaluate_circuit_outputs on a chain of {depth} gates returned {str(r)[:80]}', input=inp)
+            if 'ok' in tt:
+                col = [row[idx] if idx < len(row) else '?' for row in tt['ok']]
+                if col != exp_out:
+                    ctx.violation('truth_table.wrong', f'get_truth_table column {idx} = {col}, expected {exp_out} (chain of {depth} gates)', input=inp)
+        if 'err' in tt:
+            ctx.violation('truth_table.raises', f'get_truth_table raised {tt["err"]} on a chain of {depth} gates',
+                          input={'deep_chain': {'depth': depth, 'order': order}, 'c': j})
 
 
 def cnf_template_oracle(ctx):
